@@ -1331,7 +1331,7 @@ func runC03(c *Ctx) {
 	for i := c.Budget(50, 5000); i > 0; i-- {
 		c03HistSession(c)
 	}
-	for i := c.Budget(260, 40000); i > 0; i-- {
+	for i := c.Budget(220, 40000); i > 0; i-- {
 		c03RandomList(c, "pool", false)
 	}
 	for i := c.Budget(60, 8000); i > 0; i-- {
